@@ -416,3 +416,31 @@ func VerifTrav_StopCancelsInFlight() {
 
 // The honest network again; the spec runs this entry with one preemption anywhere.
 func VerifTrav_HonestP1() { VerifTrav_Honest() }
+
+// Stop arriving at any moment while one query is bound to its context (a silent remote) and another
+// one completes around the same time: whichever way the run loop exits, the silent query's context is
+// cancelled, Stopped fires and nothing stays blocked.
+func VerifTrav_StopWhileAwake() {
+	n := verifNewNet(verifTarget, 3)
+	n.nodes[0].neighbours = []int{2}
+	slowStarted, slowCtxCancelled := false, false
+	doQuery := func(ctx context.Context, addr krpc.NodeAddr) QueryResult {
+		if n.index(addr) == 1 {
+			slowStarted = true
+			<-ctx.Done()
+			slowCtxCancelled = true
+			return QueryResult{}
+		}
+		return n.doQuery(ctx, addr)
+	}
+	op := Start(OperationInput{Target: n.target, Alpha: 2, K: 2, DoQuery: doQuery})
+	n.seed(op, 1, true)
+	n.seed(op, 0, true)
+	for i := verifChoice(0, 4); i > 0; i-- {
+		verifYield()
+	}
+	op.Stop()
+	<-op.Stopped()
+	verifAssert(!slowStarted || slowCtxCancelled, "C04: a query in flight when the lookup is stopped has its context cancelled")
+	verifReach("end")
+}
